@@ -662,8 +662,13 @@ where
         exhaustive: false,
         inconclusive: None,
     };
+    // development aid: VERIF_ONLY_PART=<name> skips every other generated part (never set by the registered commands)
+    if std::env::var("VERIF_ONLY_PART").is_ok_and(|p| p != name) {
+        return report;
+    }
     let shards = env.shards.max(1);
-    let per_shard = opts.cases.div_ceil(shards as u64).max(1);
+    let total_cases = std::env::var("VERIF_DEV_CASES").ok().and_then(|c| c.parse::<u64>().ok()).unwrap_or(opts.cases);
+    let per_shard = total_cases.div_ceil(shards as u64).max(1);
     let results: Vec<(Stats, Option<Failure>)> = std::thread::scope(|s| {
         let handles: Vec<_> = (0..shards)
             .map(|shard| {
